@@ -8,6 +8,7 @@
 package main
 
 import (
+	"encoding/json"
 	"flag"
 	"fmt"
 	"os"
@@ -36,7 +37,23 @@ func main() {
 	repo := flag.String("repo", "/repo", "repository root")
 	verif := flag.String("verif", "", "verif root (default: parent of the binary's directory)")
 	only := flag.String("only", "", "only report obligations whose key has this prefix (evidence is not rewritten)")
+	list := flag.Bool("list", false, "print the registered properties as JSON and exit")
 	flag.Parse()
+	if *list {
+		type pd struct {
+			ID      string   `json:"id"`
+			Explain string   `json:"explain"`
+			Assume  []string `json:"assume"`
+		}
+		var out []pd
+		for id, p := range props {
+			out = append(out, pd{id, p.explain, p.assume})
+		}
+		sort.Slice(out, func(i, j int) bool { return out[i].ID < out[j].ID })
+		b, _ := json.MarshalIndent(out, "", " ")
+		fmt.Println(string(b))
+		return
+	}
 	if *tier != "thorough" {
 		*tier = "quick"
 	}
